@@ -653,3 +653,28 @@ func verifLemma_C38_basic_world_isolates_the_caller(v string, other string) {
 func verifLemma_C38_overlay_world_isolates_the_caller(v string, other string) {
 	verifHelper_C38_caller_edits(NewMutableOverlayWorld(vListWorld{}), v, other)
 }
+
+// C14 (bounded history): snapshots of the general mutable overlay world. A relation feature
+// is added (tag value v) through the real AddFeature; a snapshot is taken; the feature is
+// replaced (tag value w, another member) and a second feature is added in the live world:
+// the snapshot still returns the first version and does not know the second feature, the
+// live world returns the new version and the second feature.
+func verifLemma_C14_overlay_world_snapshot(v string, w string) {
+	id, id2 := FromOSMRelationID(1), FromOSMRelationID(2)
+	live := NewMutableOverlayWorld(vListWorld{})
+	first := &RelationFeature{RelationID: id, Tags: b6.Tags{{Key: "name", Value: b6.NewStringExpression(v)}}, Members: []b6.RelationMember{{ID: FromOSMNodeID(1)}}}
+	verifrt.Assert(live.AddFeature(first) == nil, "feature-added")
+	s := live.Snapshot()
+	second := &RelationFeature{RelationID: id, Tags: b6.Tags{{Key: "name", Value: b6.NewStringExpression(w)}}, Members: []b6.RelationMember{{ID: FromOSMNodeID(2)}}}
+	verifrt.Assert(live.AddFeature(second) == nil, "feature-replaced")
+	other := &RelationFeature{RelationID: id2, Tags: b6.Tags{{Key: "name", Value: b6.NewStringExpression(w)}}}
+	verifrt.Assert(live.AddFeature(other) == nil, "second-feature-added")
+	old := s.FindFeatureByID(id.FeatureID())
+	verifrt.Assert(old != nil && old.Get("name").Value.String() == v, "snapshot-keeps-the-first-version")
+	r, isRelation := old.(b6.RelationFeature)
+	verifrt.Assert(isRelation && r.Len() == 1 && r.Member(0).ID == FromOSMNodeID(1), "snapshot-keeps-the-first-members")
+	verifrt.Assert(s.FindFeatureByID(id2.FeatureID()) == nil && !s.HasFeatureWithID(id2.FeatureID()), "snapshot-does-not-know-later-features")
+	now := live.FindFeatureByID(id.FeatureID())
+	verifrt.Assert(now != nil && now.Get("name").Value.String() == w, "live-world-shows-the-replacement")
+	verifrt.Assert(live.HasFeatureWithID(id2.FeatureID()), "live-world-knows-the-second-feature")
+}
